@@ -41,6 +41,7 @@ func (t *T0x0704) Parse(jtMsg *jt808.JTMessage) error {
 	}
 	t.Num = binary.BigEndian.Uint16(body[:2])
 	t.LocationType = body[2]
+	t.Items = nil // 复用对象时 不保留上一次的数据项
 	start := 3
 	for i := 0; i < int(t.Num); i++ {
 		var item T0x0704LocationItem
